@@ -17,7 +17,7 @@ import (
 
 // C08 — handlers see one element at a time; stream-level input never reaches them.
 
-func init() { register(&Scenario{ID: "C08", Run: runC08}) }
+func init() { register(&Scenario{ID: "C08", Run: runC08, Alt: runC08Response, AltEvery: 12}) }
 
 // tokStr is the canonical text of a token.
 func tokStr(t xml.Token) string {
